@@ -286,6 +286,9 @@ func ownedParams(c *Ctx) []ownedParam {
 			}
 			for _, p := range fn.Params {
 				if k := streamKind(p.Type()); k != 0 {
+					if isBorrower(c, fn, p) {
+						continue // an unexported helper that only reads from a stream its caller owns and closes
+					}
 					out = append(out, ownedParam{fn, rel + "." + n, p, k})
 				}
 			}
@@ -360,7 +363,9 @@ func ruleOwnParams(c *Ctx, r *R) {
 					otherUse = "stored into a struct that is not returned"
 				}
 			case "handed":
-				if universe[u.fn] && u.argIx < len(u.fn.Params) && streamKind(u.fn.Params[u.argIx].Type()) != 0 {
+				if u.argIx < len(u.fn.Params) && isBorrower(c, u.fn, u.fn.Params[u.argIx]) {
+					forms["here"] = true // lent to a helper that only reads it
+				} else if universe[u.fn] && u.argIx < len(u.fn.Params) && streamKind(u.fn.Params[u.argIx].Type()) != 0 {
 					forms["handed"] = true
 					details = append(details, "HANDED-ON to "+funcShort(u.fn))
 				} else {
@@ -498,9 +503,19 @@ func ruleOwnGoroutine(c *Ctx, r *R, op ownedParam, key string, uses []ownUse) {
 		return
 	}
 	loads := freeVarLoads(mc, bound[mc])
+	// the variable (cell) the stream lives in, for uses inside function literals nested in the goroutine
+	var ownCell *ssa.Alloc
+	if al, ok := bound[mc].(*ssa.Alloc); ok {
+		ownCell = al
+	}
 	isVal := func(v ssa.Value) bool {
 		for _, l := range loads {
 			if copiesOf(l)[v] {
+				return true
+			}
+		}
+		if ld, ok := v.(*ssa.UnOp); ok && ld.Op == token.MUL && ownCell != nil {
+			if _, isFV := ld.X.(*ssa.FreeVar); isFV && cellOf(ld.X) == ownCell {
 				return true
 			}
 		}
@@ -529,6 +544,14 @@ func ruleOwnGoroutine(c *Ctx, r *R, op ownedParam, key string, uses []ownUse) {
 					deferClose = x
 				}
 			}
+			// a deferred function literal whose first block closes the stream (defer func() { close(c); s.Close() }())
+			if f := staticCallee(&x.Call); f != nil && f.Blocks != nil && f.Parent() != nil && deferClose == nil {
+				for _, y := range f.Blocks[0].Instrs {
+					if call, ok := y.(*ssa.Call); ok && call.Call.IsInvoke() && call.Call.Method.Name() == "Close" && isVal(call.Call.Value) {
+						deferClose = x
+					}
+				}
+			}
 			if cal := x.Call.StaticCallee(); cal != nil && cal.Name() == "Done" && isNamedType(cal.Signature.Recv().Type(), "sync", "WaitGroup") {
 				if deferDone == nil {
 					deferDone = x
@@ -537,6 +560,14 @@ func ruleOwnGoroutine(c *Ctx, r *R, op ownedParam, key string, uses []ownUse) {
 		case *ssa.Call:
 			if x.Call.IsInvoke() && (x.Call.Method.Name() == "Next" || x.Call.Method.Name() == "Peek") && isVal(x.Call.Value) && firstNext == nil {
 				firstNext = x
+			}
+			// lent to a helper that reads it
+			if cal := staticCallee(&x.Call); cal != nil && firstNext == nil {
+				for ai, a := range x.Call.Args {
+					if isVal(a) && ai < len(cal.Params) && isBorrower(c, cal, cal.Params[ai]) {
+						firstNext = x
+					}
+				}
 			}
 		}
 	})
@@ -848,4 +879,22 @@ func onlyMeasures(mc *ssa.MakeClosure, b ssa.Value) bool {
 	}
 	check(fv)
 	return okAll
+}
+
+// isBorrower: fn is an unexported package-level helper whose stream parameter p is only read (Next / Peek) - never closed,
+// stored, captured, returned or handed on - and that is called from somewhere: ownership stays with the caller.
+func isBorrower(c *Ctx, fn *ssa.Function, p *ssa.Parameter) bool {
+	if fn == nil || fn.Parent() != nil || token.IsExported(fn.Name()) || fn.Blocks == nil {
+		return false
+	}
+	uses := usesOfOwned(p)
+	if len(uses) == 0 {
+		return false
+	}
+	for _, u := range uses {
+		if u.kind != "next" {
+			return false
+		}
+	}
+	return len(callCommonsOf(c, fn)) > 0
 }
